@@ -133,7 +133,7 @@ class C14(Check):
     level = "exploration"
     rule = (
         "ECU models (seeds x randomness parameters, often with p_service / p_sub_function / p_identifier raised so handlers really answer) x histories of 1-100 "
-        "requests per client: random bytes (1-9, 1024, 4095), every sid with 0-8 payload bytes, requests from an independent ISO 14229-1 layout grammar "
+        "requests per client: random bytes (1-9, 1024, 4095), every sid with 0-8 payload bytes (drawn, and every 25th plan as an exhaustive sweep over all 256 service ids at one payload length), requests from an independent ISO 14229-1 layout grammar "
         "(multi-identifier, memory-address, suppress-bit variants), session changes in between x 1-3 concurrent client connections x tcp/unix x segmentation "
         "{whole, random, bytes}. non-trivial = at least one positive typed reply or a state change; distinct = multiset of (request class, reply class) pairs."
     )
@@ -171,6 +171,11 @@ class C14(Check):
         nclients = rng.choice([1, 1, 2, 3])
         big = rng.random() < 0.08
         plan["clients"] = [gen_requests(rng, services, rng.choice([1, 5, 20, 50, 100] if tier == "quick" else [20, 100, 300]), big) for _ in range(nclients)]
+        if index % 25 == 10:
+            # exhaustive sweep: every service id 0x00-0xFF with a payload of L bytes (L = 0..8 over successive sweeps)
+            ln = (index // 25) % 9
+            plan["clients"][0] = plan["clients"][0][: rng.choice([0, 3, 8])] + [bytes([sid] + rb(rng, ln)).hex() for sid in range(256)]
+            plan["sweep"] = True
         plan["scheme"] = rng.choice(["tcp", "tcp", "unix"])
         plan["segment"] = rng.choice(["whole", "random", "random", "bytes"]) if not big else rng.choice(["whole", "random"])
         plan["lat"] = rng.choice([[0.0001, 0.0005], [0.001, 0.005]])
@@ -352,6 +357,8 @@ class C14(Check):
                     bump(res["faults"], k, net.counters[k])
         if len(plan["clients"]) > 1:
             bump(res["faults"], "concurrent_clients", len(plan["clients"]))
+        if plan.get("sweep"):
+            bump(res["probes"], "exhaustive_sweep_of_256_service_ids")
         if holder.get("rude_done"):
             bump(res["faults"], "client_hung_up_without_reading_its_answer")
         if holder.get("idled"):
